@@ -93,7 +93,7 @@ def unescape_tla(s):
 
 
 def run_mc(module, constants, invariants, wd, workers=None, view="View", timeout=3600, xmx="8g",
-           init="Init", nxt="Next", extra_cfg="", simulate=None, seed=None):
+           init="Init", nxt="Next", extra_cfg="", simulate=None, seed=None, cont=False):
     """run TLC on spec/<module>.tla with a generated cfg; returns parsed result."""
     cfg = ["CONSTANTS"] + ["  %s = %s" % kv for kv in constants.items()]
     cfg += ["INIT " + init, "NEXT " + nxt]
@@ -106,6 +106,8 @@ def run_mc(module, constants, invariants, wd, workers=None, view="View", timeout
     open(cfgp, "w").write("\n".join(cfg) + "\n")
     args = ["-workers", str(workers or NCPU), "-metadir", os.path.join(wd, "meta"), "-cleanup",
             "-noGenerateSpecTE", "-config", cfgp]
+    if cont:
+        args = ["-continue"] + args
     if simulate:
         args = ["-simulate", simulate] + args
         if seed is not None:
